@@ -3,7 +3,6 @@ package rng
 import (
 	"errors"
 	"fmt"
-	"math"
 	"math/rand"
 	"time"
 )
@@ -43,9 +42,13 @@ func toRune(value int64) rune {
 }
 
 func int64ToSeed(value int64) string {
-	e := int(math.Floor(math.Log(float64(value)) / math.Log(radix)))
-	seed := make([]rune, 0, e)
-	posValue := int64(math.Pow(radix, float64(e)))
+	e := 0
+	posValue := int64(1)
+	for value/posValue >= radix {
+		posValue *= radix
+		e++
+	}
+	seed := make([]rune, 0, e+1)
 	for e >= 0 {
 		digit := value / posValue
 		seed = append(seed, toRune(digit))
